@@ -453,3 +453,69 @@ pub fn around(s: &str, d: usize, before: usize, len: usize) -> String {
     }
     trunc(&s[a..], len)
 }
+
+// ---------------------------------------------------------------- child processes
+
+extern "C" {
+    fn kill(pid: i32, sig: i32) -> i32;
+    fn getppid() -> i32;
+}
+
+/// Kill (SIGKILL) every process that descends from this one: helper workers and `solstat` runs that a check
+/// may leave behind when it stops early (a detector that does not terminate keeps its process busy for ever).
+pub fn kill_descendants() {
+    let me = std::process::id() as i32;
+    for _ in 0..3 {
+        let mut ppid: BTreeMap<i32, i32> = BTreeMap::new();
+        if let Ok(rd) = std::fs::read_dir("/proc") {
+            for e in rd.flatten() {
+                if let Some(pid) = e.file_name().to_str().and_then(|s| s.parse::<i32>().ok()) {
+                    if let Ok(st) = std::fs::read_to_string(format!("/proc/{}/stat", pid)) {
+                        if let Some(close) = st.rfind(')') {
+                            let rest: Vec<&str> = st[close + 1..].split_whitespace().collect();
+                            if let Some(pp) = rest.get(1).and_then(|x| x.parse::<i32>().ok()) {
+                                ppid.insert(pid, pp);
+                            }
+                        }
+                    }
+                }
+            }
+        }
+        let mut victims: Vec<i32> = vec![];
+        for (&pid, _) in ppid.iter() {
+            let mut cur = pid;
+            let mut hops = 0;
+            while let Some(&pp) = ppid.get(&cur) {
+                if pp == me && pid != me {
+                    victims.push(pid);
+                    break;
+                }
+                if pp <= 1 || hops > 64 {
+                    break;
+                }
+                cur = pp;
+                hops += 1;
+            }
+        }
+        if victims.is_empty() {
+            return;
+        }
+        for v in victims {
+            unsafe {
+                kill(v, 9);
+            }
+        }
+        std::thread::sleep(std::time::Duration::from_millis(50));
+    }
+}
+
+/// For helper processes: leave as soon as the process that started this one is gone.
+pub fn exit_when_parent_dies() {
+    let original = unsafe { getppid() };
+    std::thread::spawn(move || loop {
+        std::thread::sleep(std::time::Duration::from_millis(1000));
+        if unsafe { getppid() } != original {
+            std::process::exit(98);
+        }
+    });
+}
